@@ -22,6 +22,32 @@ use std::sync::Arc;
 use std::time::{Duration, Instant};
 use tokio::sync::RwLock;
 
+/// Verification hook (compiled only with `--cfg akd_verif`): a harness may register a future that
+/// every task awaits at the point where it is about to store records in the cache, which lets the
+/// harness suspend the task there. Without a registered hook nothing happens.
+#[cfg(akd_verif)]
+pub mod verif_hook {
+    use std::future::Future;
+    use std::pin::Pin;
+    use std::sync::{Arc, RwLock};
+
+    /// what a harness registers
+    pub type Hook = Arc<dyn Fn() -> Pin<Box<dyn Future<Output = ()> + Send>> + Send + Sync>;
+    static HOOK: RwLock<Option<Hook>> = RwLock::new(None);
+
+    /// registers (or removes) the hook
+    pub fn set(hook: Option<Hook>) {
+        *HOOK.write().unwrap() = hook;
+    }
+
+    pub(super) async fn before_store() {
+        let hook = HOOK.read().unwrap().clone();
+        if let Some(hook) = hook {
+            hook().await;
+        }
+    }
+}
+
 /// Implements a basic cache with timing information which automatically flushes
 /// expired entries and removes them
 #[derive(Clone)]
@@ -192,6 +218,8 @@ impl TimedCache {
     /// Put an item into the cache.
     pub async fn put(&self, record: &DbRecord) {
         self.clean().await;
+        #[cfg(akd_verif)]
+        verif_hook::before_store().await;
 
         let key = record.get_full_binary_id();
 
@@ -211,6 +239,8 @@ impl TimedCache {
     /// Put a batch of items into the cache, utilizing a single write lock.
     pub async fn batch_put(&self, records: &[DbRecord]) {
         self.clean().await;
+        #[cfg(akd_verif)]
+        verif_hook::before_store().await;
 
         for record in records.iter() {
             if let DbRecord::Azks(azks_ref) = &record {
@@ -237,6 +267,8 @@ impl TimedCache {
         still_current: F,
     ) {
         self.clean().await;
+        #[cfg(akd_verif)]
+        verif_hook::before_store().await;
 
         for record in records.iter() {
             if let DbRecord::Azks(azks_ref) = &record {
